@@ -326,7 +326,8 @@ Definition register_producer_code (version : Z) (payload_sig_ok : bool)
     Ok (cn - 81 + 1 <=? 10)
   else Ok true.
 
-(* checkSchnorrWithdrawFromSidechain, signer loop: arbiters[index] *)
+(* checkSchnorrWithdrawFromSidechain, signer loop: arbiters[index]; an
+   arbiter is 1 when its node key unmarshals to a point of the curve, else 0 *)
 Fixpoint signer_loop (validate : bool) (narbiters : Z) (arbiters : list Z)
     (signers : list Z) (seen : list Z) : res bool :=
   match signers with
@@ -335,11 +336,143 @@ Fixpoint signer_loop (validate : bool) (narbiters : Z) (arbiters : list Z)
     if narbiters <=? index then Ok false else
     if validate && existsb (Z.eqb index) seen then Ok false else
     a <- idx arbiters index ;;
+    if a =? 0 then Ok false else
     signer_loop validate narbiters arbiters rest (if validate then index :: seen else seen)
   end.
 
 Definition schnorr_withdraw_signers (validate : bool) (arbiters signers : list Z) : res bool :=
   signer_loop validate (len arbiters) arbiters signers [].
+
+(* for _, program := range t.Programs(): Schnorr code equal to the redeem script *)
+Fixpoint withdraw_programs (redeem : list Z) (codes : list (list Z)) : res bool :=
+  match codes with
+  | [] => Ok true
+  | c :: rest =>
+    s <- is_schnorr c ;;
+    if s then (if bytes_eqb c redeem then withdraw_programs redeem rest else Ok false)
+    else Ok false
+  end.
+
+(* the whole check; agg_ok: the aggregated key decodes and its redeem script
+   is built (oracle), redeem: that script *)
+Definition schnorr_withdraw (validate : bool) (arbiters signers : list Z)
+    (agg_ok : bool) (redeem : list Z) (codes : list (list Z)) : res bool :=
+  l <- schnorr_withdraw_signers validate arbiters signers ;;
+  if negb l then Ok false else
+  if negb agg_ok then Ok false else
+  withdraw_programs redeem codes.
+
+(* TransferCrossChainAsset.checkTransferCrossChainAssetTransactionV0.
+   addrs: the cross-chain addresses as numbers (0 = the empty string),
+   idxs: OutputIndexes (uint64), amounts (Fixed64), outs: (first byte of the
+   program hash, value) of every output *)
+Fixpoint v0_index_loop (nouts : Z) (idxs seen : list Z) : bool :=
+  match idxs with
+  | [] => true
+  | i :: rest =>
+    if existsb (Z.eqb i) seen || (nouts <=? i) then false
+    else v0_index_loop nouts rest (i :: seen)
+  end.
+
+Fixpoint v0_addr_loop (fuel : nat) (addrs idxs : list Z) (outs : list (Z * Z))
+    (i : Z) (seen : list Z) : res bool :=
+  match fuel with
+  | O => Ok true
+  | S f =>
+    if i <? len addrs then
+      a <- idx addrs i ;;
+      if existsb (Z.eqb a) seen then Ok false else
+      k <- idx idxs i ;;
+      o <- idx outs k ;;
+      if negb (fst o =? 75) then Ok false else
+      if a =? 0 then Ok false else
+      v0_addr_loop f addrs idxs outs (i + 1) (a :: seen)
+    else Ok true
+  end.
+
+Fixpoint v0_amount_loop (fuel : nat) (amounts idxs : list Z) (outs : list (Z * Z))
+    (minfee i : Z) : res bool :=
+  match fuel with
+  | O => Ok true
+  | S f =>
+    if i <? len amounts then
+      a <- idx amounts i ;;
+      if a <? 0 then Ok false else
+      k <- idx idxs i ;;
+      o <- idx outs k ;;
+      if i64 (snd o - minfee) <? a then Ok false else
+      v0_amount_loop f amounts idxs outs minfee (i + 1)
+    else Ok true
+  end.
+
+Definition crosschain_v0 (is_payload : bool) (addrs idxs amounts : list Z)
+    (outs : list (Z * Z)) (minfee total_in : Z) : res bool :=
+  if negb is_payload then Ok false else
+  if (len addrs =? 0) || (len outs <? len addrs) || negb (len addrs =? len amounts) ||
+     negb (len amounts =? len idxs) then Ok false else
+  if negb (v0_index_loop (len outs) idxs []) then Ok false else
+  r <- v0_addr_loop (length addrs) addrs idxs outs 0 [] ;;
+  if negb r then Ok false else
+  r <- v0_amount_loop (length amounts) amounts idxs outs minfee 0 ;;
+  if negb r then Ok false else
+  Ok (minfee <=? i64 (total_in - fold_left (fun acc o => i64 (acc + snd o)) outs 0)).
+
+(* ReturnSideChainDepositCoin.SpecialContextCheck, one return output.
+   The deposit transaction named by the output payload is looked up in the
+   chain store (oracle): its inputs as (previous index, outputs of the
+   referenced transaction as program-hash ids, None = not found), its
+   payload version, whether its payload is a TransferCrossChainAsset, that
+   payload's OutputIndexes and its outputs (program-hash id, value, counts
+   for the V1 sum). *)
+Record deposit_tx := {
+  d_inputs : list (Z * option (list Z));
+  d_pver : Z;
+  d_is_tcca : bool;
+  d_idxs : list Z;
+  d_outs : list (Z * Z * bool)
+}.
+
+Fixpoint dep_amount_v0 (idxs : list Z) (outs : list (Z * Z * bool)) (side : Z) (acc : Z) : res Z :=
+  match idxs with
+  | [] => Ok acc
+  | k :: rest =>
+    o <- idx outs k ;;
+    if negb (fst (fst o) =? side) then dep_amount_v0 rest outs side acc
+    else dep_amount_v0 rest outs side (i64 (acc + snd (fst o)))
+  end.
+
+Definition dep_amount_v1 (outs : list (Z * Z * bool)) (side : Z) : Z :=
+  fold_left (fun acc o => if snd o && (fst (fst o) =? side) then i64 (acc + snd (fst o)) else acc) outs 0.
+
+(* out_ph / out_value: the return output; dup: hash already returned;
+   dep: the looked-up deposit transaction; addr_ok / side: GenesisBlockAddress
+   decodes, to this program-hash id.  None = continue with the next output *)
+Definition return_deposit_output (out_ph out_value fee : Z) (dup : bool)
+    (dep : option deposit_tx) (addr_ok : bool) (side : Z) : res (option bool) :=
+  if dup then Ok (Some false) else
+  match dep with
+  | None => Ok (Some false)
+  | Some tx =>
+    if len (d_inputs tx) =? 0 then Ok (Some false) else
+    i0 <- idx (d_inputs tx) 0 ;;
+    match snd i0 with
+    | None => Ok (Some false)
+    | Some refouts =>
+      ro <- idx refouts (fst i0) ;;
+      if negb (out_ph =? ro) then Ok (Some false) else
+      if negb addr_ok then Ok (Some false) else
+      amt <- (if d_pver tx =? 0 then
+                if negb (d_is_tcca tx) then Ok None
+                else a <- dep_amount_v0 (d_idxs tx) (d_outs tx) side 0 ;; Ok (Some a)
+              else if d_pver tx =? 1 then
+                if negb (d_is_tcca tx) then Ok None else Ok (Some (dep_amount_v1 (d_outs tx) side))
+              else Ok (Some 0)) ;;
+      match amt with
+      | None => Ok None
+      | Some a => if negb (i64 (out_value + fee) =? a) then Ok (Some false) else Ok None
+      end
+    end
+  end.
 
 (* ---------------------------------------------------------------- composition *)
 
